@@ -4,8 +4,8 @@
    keys), math/big's own JSON form.  Text = list of byte values (N), exactly the bytes handed to UnmarshalJSON.
    Structure level: a JSON syntax tree and generic encode / decode over a universe of Go type descriptors that
    follows encoding/json's rules (field names, null = no-op, unknown keys ignored, case-insensitive keys, later
-   duplicate wins / merges, map keys sorted as strings).  The JSON text grammar (tokenising, string escapes), float,
-   time.Time and base64 leaves are not modelled: they are opaque leaves.
+   duplicate wins / merges, map keys sorted as strings).  The JSON text grammar (tokenising, string escapes) is
+   Model/JsonText.v; float, time.Time and base64 leaves are opaque leaves kept as their token.
    Sorting level: Outcome.Sort of commit/merkleroot/types.go and newSortedOutcome of execute/exectypes/outcome.go. *)
 Require Import Verif.Model.Base.
 
@@ -171,7 +171,7 @@ Definition bigptr_dec (tok : text) : option (option Z) :=
 Inductive json :=
 | JNull | JTrue | JFalse
 | JNum (s : text)                 (* number literal, as written *)
-| JStr (s : text)                 (* string content (after unescaping; escapes are outside the model) *)
+| JStr (s : text)                 (* string content after unescaping (escapes: Model/JsonText.v) *)
 | JArr (l : list json)
 | JObj (l : list (text * json)).  (* members in textual order, duplicates possible *)
 
